@@ -16,7 +16,10 @@ TEMPLATE = r'''
 use vstd::prelude::*;
 use vstd::multiset::*;
 use std::collections::HashSet;
+use std::collections::HashMap;
+use vstd::std_specs::hash::*;
 verus! {
+broadcast use vstd::std_specs::hash::group_hash_axioms;
 @@NodeId@@
 @@EdgeId@@
 pub type Entry = (NodeId, EdgeId);
@@ -99,13 +102,69 @@ impl AdjacencyList {
     @@AdjacencyList::freeze_all@@
 }
 
+
+// ================= ChunkedAdjacency: node -> adjacency list =================
+@@ChunkedAdjacency@@
+pub proof fn axiom_node_keys() ensures obeys_key_model::<NodeId>() { admit(); }
+pub assume_specification<'a, K, V, S, A, Q>[ HashMap::<K, V, S, A>::get_mut::<Q> ](m: &'a mut HashMap<K, V, S, A>, k: &Q) -> (r: Option<&'a mut V>)
+    where K: Eq + std::hash::Hash + std::borrow::Borrow<Q>, Q: std::hash::Hash + Eq + ?Sized, S: std::hash::BuildHasher, A: std::alloc::Allocator
+    ensures
+        obeys_key_model::<K>() && builds_valid_hashers::<S>() ==> match r {
+            Some(v) => contains_borrowed_key(old(m)@, k) && maps_borrowed_key_to_value(old(m)@, k, *v)
+                && contains_borrowed_key(final(m)@, k) && maps_borrowed_key_to_value(final(m)@, k, *final(v))
+                && (exists|mid: Map<K, V>| borrowed_key_removed(old(m)@, mid, k) && borrowed_key_removed(final(m)@, mid, k)),
+            None => !contains_borrowed_key(old(m)@, k) && final(m)@ == old(m)@,
+        }
+;
+// R32: the keys of a map, each exactly once
+#[verifier::external_body] fn map_keys<V>(m: &HashMap<NodeId, V>) -> (r: Vec<NodeId>)
+    ensures r@.no_duplicates(), forall|k: NodeId| #[trigger] r@.contains(k) <==> m@.contains_key(k) { m.keys().copied().collect() }
+// R35: `m.entry(k).or_insert_with(AdjacencyList::new)` - ASSUMED std entry API: the list under k (a NEW, empty one if absent), other keys untouched
+#[verifier::external_body]
+fn entry_or_insert_with_new<'a>(m: &'a mut HashMap<NodeId, AdjacencyList>, k: NodeId) -> (r: &'a mut AdjacencyList)
+    ensures
+        old(m)@.contains_key(k) ==> *r == old(m)@[k],
+        !old(m)@.contains_key(k) ==> r.wf() && r.ms() =~= Multiset::<Entry>::empty(),
+        final(m)@ == old(m)@.insert(k, *final(r)),
+{ m.entry(k).or_insert_with(AdjacencyList::new) }
+// E2: atomic counters, sequentially
+fn fetch_add_usize(a: &mut usize, v: usize) -> (o: usize) ensures o == *old(a), *final(a) == (if *old(a) + v > usize::MAX { (*old(a) + v - usize::MAX - 1) as usize } else { (*old(a) + v) as usize })
+{ let o = *a; *a = o.wrapping_add(v); o }
+
+/// the entries stored for node n (none if n has no list)
+pub open spec fn entries_of(m: Map<NodeId, AdjacencyList>, n: NodeId) -> Multiset<Entry> { if m.contains_key(n) { m[n].ms() } else { Multiset::empty() } }
+pub open spec fn lists_wf(m: Map<NodeId, AdjacencyList>) -> bool { forall|n: NodeId| #[trigger] m.contains_key(n) ==> m[n].wf() }
+proof fn lemma_get_mut_frame<V>(pre: Map<NodeId, V>, post: Map<NodeId, V>, k: NodeId)
+    requires pre.contains_key(k), post.contains_key(k), exists|mid: Map<NodeId, V>| borrowed_key_removed(pre, mid, &k) && borrowed_key_removed(post, mid, &k), obeys_key_model::<NodeId>(),
+    ensures forall|o: NodeId| #![trigger post.contains_key(o)] #![trigger pre.contains_key(o)] #![trigger post[o]] #![trigger pre[o]] o != k ==> (post.contains_key(o) == pre.contains_key(o)) && (pre.contains_key(o) ==> post[o] == pre[o]),
+{
+    let mid = choose|mid: Map<NodeId, V>| borrowed_key_removed(pre, mid, &k) && borrowed_key_removed(post, mid, &k);
+    assert(mid == pre.remove(k)); assert(mid == post.remove(k));
+    assert forall|o: NodeId| #![trigger post.contains_key(o)] #![trigger pre.contains_key(o)] #![trigger post[o]] #![trigger pre[o]] o != k implies (post.contains_key(o) == pre.contains_key(o)) && (pre.contains_key(o) ==> post[o] == pre[o]) by {
+        assert(mid.contains_key(o) == pre.contains_key(o)); assert(mid.contains_key(o) == post.contains_key(o));
+        if pre.contains_key(o) { assert(mid[o] == pre[o]); assert(mid[o] == post[o]); }
+    }
+}
+
+impl ChunkedAdjacency {
+    /// Representation invariant: every list is well formed and chunks can hold at least one entry
+    pub open spec fn wf(&self) -> bool { self.chunk_capacity > 0 && lists_wf(self.lists@) }
+
+    @@ChunkedAdjacency::with_chunk_capacity@@
+
+    @@ChunkedAdjacency::add_edge@@
+
+    @@ChunkedAdjacency::mark_deleted@@
+
+    @@ChunkedAdjacency::compact@@
+}
 } // verus!
 fn main() {}
 '''
 
 
 def build(repo):
-    u = Unit('adjlist', ['C14'], repo, TEMPLATE, edition2024=True)
+    u = Unit('adjlist', ['C14'], repo, TEMPLATE, features=['allocator_api'], edition2024=True)
     kd = {'Clone', 'Copy', 'PartialEq', 'Eq', 'Hash'}
     for n in ('NodeId', 'EdgeId'):
         u.item(ID, 'struct', n).D1(keep_derive=kd)
@@ -233,6 +292,66 @@ def build(repo):
     else { assert(self.cold_chunks@ =~= cc.push(self.cold_chunks@.last())); lemma_cold_push(cc, self.cold_chunks@.last()); }
 }''')
     L.after('proof { assert(h0.take(h0.len() as int) =~= h0); }')
-    u.not_covered += ['AdjacencyList::{iter, neighbors, degree} (impl Iterator chains: the READ side is not covered)', 'ChunkedAdjacency (RwLock<FxHashMap<NodeId, AdjacencyList>>, edge / deleted counters)',
+    # ---- ChunkedAdjacency ----
+    for w, why in [('admit axiom_node_keys', 'derived Hash/Eq of NodeId (u64 newtype) are lawful'), ('assume_specification HashMap::get_mut', 'std semantics (as in units TM / RDFSTORE / MVCC)'),
+                   ('external_body map_keys', 'R32: HashMap::keys() lists every key exactly once'),
+                   ('external_body entry_or_insert_with_new', 'R35: std entry API - the value under the key by mutable reference, built by AdjacencyList::new if absent, other keys untouched')]:
+        u.trust(w, why)
+    ca = u.item(SRC, 'struct', 'ChunkedAdjacency').D1(keep_derive=set()).V1()
+    ca.sub('E3', 'lists: RwLock<FxHashMap<NodeId, AdjacencyList>>,', 'lists: HashMap<NodeId, AdjacencyList>,')
+    ca.resub('E2', r'AtomicUsize', 'usize', count=2)
+    f = u.method(SRC, 'ChunkedAdjacency', 'with_chunk_capacity').D1().ret('r')
+    f.unwrap_call('E3', 'RwLock::new', count=1)
+    f.sub('E3', 'FxHashMap::default()', 'HashMap::new()')
+    f.unwrap_call('E2', 'AtomicUsize::new', count=2)
+    f.ensures('usable_for_every_capacity', 'r.wf()')       # taken from the property: no capacity may make the structure lose edges
+    f.ensures('empty', 'forall|n: NodeId| entries_of(r.lists@, n) =~= Multiset::<Entry>::empty()')
+    f.body_start('proof { axiom_node_keys(); }')
+    f = u.method(SRC, 'ChunkedAdjacency', 'add_edge').D1()
+    f.sub('E3', 'pub fn add_edge(&self,', 'pub fn add_edge(&mut self,')
+    f.resub('E3', r'[ \t]*let mut lists = self\.lists\.write\(\);\n', '')
+    f.resub('E3', r'(?<![\.\w])lists\b', 'self.lists')
+    f.R35('AdjacencyList::new')
+    f.resub_opt('E2', r'self\.edge_count\.fetch_add\(1, Ordering::Relaxed\)', 'fetch_add_usize(&mut self.edge_count, 1)')
+    f.requires('wf', 'old(self).wf()')
+    f.ensures('wf', 'final(self).wf()')
+    f.ensures('one_more_entry_for_src', 'entries_of(final(self).lists@, src) =~= entries_of(old(self).lists@, src).insert((dst, edge_id))')
+    f.ensures('other_nodes_untouched', 'forall|n: NodeId| n != src ==> entries_of(final(self).lists@, n) == entries_of(old(self).lists@, n)')
+    f.body_start('proof { axiom_node_keys(); }')
+    f = u.method(SRC, 'ChunkedAdjacency', 'mark_deleted').D1()
+    f.sub('E3', 'pub fn mark_deleted(&self,', 'pub fn mark_deleted(&mut self,')
+    f.resub('E3', r'[ \t]*let mut lists = self\.lists\.write\(\);\n', '')
+    f.resub('E3', r'(?<![\.\w])lists\b', 'self.lists')
+    f.resub_opt('E2', r'self\.deleted_count\.fetch_add\(1, Ordering::Relaxed\)', 'fetch_add_usize(&mut self.deleted_count, 1)')
+    f.requires('wf', 'old(self).wf()')
+    f.ensures('wf', 'final(self).wf()')
+    f.ensures('entries_untouched', 'forall|n: NodeId| entries_of(final(self).lists@, n) == entries_of(old(self).lists@, n)')
+    f.body_start('proof { axiom_node_keys(); }\nlet ghost L0 = self.lists@;')
+    f.body_end('proof { if L0.contains_key(src) { lemma_get_mut_frame(L0, self.lists@, src); } }')
+    f = u.method(SRC, 'ChunkedAdjacency', 'compact').D1()
+    f.sub('E3', 'pub fn compact(&self)', 'pub fn compact(&mut self)')
+    f.resub('E3', r'[ \t]*let mut lists = self\.lists\.write\(\);\n', '')
+    f.resub('E3', r'(?<![\.\w])lists\b', 'self.lists')
+    f.R32()
+    f.requires('wf', 'old(self).wf()')
+    f.ensures('wf', 'final(self).wf()')
+    f.ensures('no_entry_lost_or_duplicated', 'forall|n: NodeId| entries_of(final(self).lists@, n) =~= entries_of(old(self).lists@, n)')
+    f.body_start('proof { axiom_node_keys(); }\nlet ghost L0 = self.lists@;')
+    L = f.loop('in 0..keys__1.len()').kind('for')
+    L.invariants(('keys', 'obeys_key_model::<NodeId>() && keys__1@.no_duplicates() && (forall|k: NodeId| #[trigger] keys__1@.contains(k) <==> L0.contains_key(k))'),
+                 ('domain', 'forall|n: NodeId| #![trigger self.lists@.contains_key(n)] self.lists@.contains_key(n) == L0.contains_key(n)'),
+                 ('preserved', 'self.wf() && self.chunk_capacity == old(self).chunk_capacity && forall|n: NodeId| #![trigger entries_of(self.lists@, n)] entries_of(self.lists@, n) =~= entries_of(L0, n)'))
+    L.body_start('let ghost pre = self.lists@;\nproof { assert(keys__1@.contains(keys__1@[i__1 as int])); }')
+    L.body_end('''proof {
+    let post = self.lists@;
+    lemma_get_mut_frame(pre, post, k__);
+    assert(post.contains_key(k__) && pre.contains_key(k__));
+    assert(post[k__].wf() && post[k__].ms() =~= pre[k__].ms());
+    assert forall|n: NodeId| #![trigger entries_of(post, n)] entries_of(post, n) =~= entries_of(pre, n) by {
+        if n != k__ { assert(post.contains_key(n) == pre.contains_key(n)); if pre.contains_key(n) { assert(post[n] == pre[n]); } }
+    }
+    assert forall|n: NodeId| #[trigger] post.contains_key(n) implies post[n].wf() by { if n != k__ { assert(pre.contains_key(n) && post[n] == pre[n]); } }
+}''')
+    u.not_covered += ['AdjacencyList::{iter, neighbors, degree} (impl Iterator chains: the READ side is not covered)', 'ChunkedAdjacency::{neighbors, edges_from, out_degree, in_degree} (read side), compact_if_needed, clear, counters',
                       'CompressedAdjacencyChunk internals (C15 codecs; bounded cross-check in unit ADJACENCY)']
     return u
